@@ -22,7 +22,7 @@ RULE = ("for every option of the input/output/rst sections (keys read from confi
         "distinct by SHA-1 of the case; coverage lists the (option, source subset) pairs seen")
 ASSUMPTIONS = ["confuse honours CMINXDIR for the per-user configuration directory", "bare strings for list options and "
                "mappings for headers are not injected (confuse converts them; the property does not define them)"]
-BUDGET = {"quick": {"shards": 4, "examples": 250}, "thorough": {"shards": 16, "examples": 3000}}
+BUDGET = {"quick": {"shards": 8, "examples": 200}, "thorough": {"shards": 16, "examples": 3000}}
 
 BOOL_INPUT = ["include_undocumented_function", "include_undocumented_macro", "include_undocumented_cpp_class",
               "include_undocumented_cpp_attr", "include_undocumented_cpp_constructor", "include_undocumented_cpp_member",
